@@ -1263,6 +1263,35 @@ MOTIFS_DAG = [
 ]
 
 
+# A cells whose VALUE depends on the name of its space (template 17: `_space.fullname`), in a child space (g) and in
+# its parent (h), computed through from ELSEWHERE: by the parent through the child (`X.g(x)`), and from an unrelated
+# space that holds the child / the parent in object-valued references (k, f), with a chain above one caller.
+# Renaming the space (or its parent) changes what g / h return; nothing but the nodes of g / h ties the callers
+# elsewhere to the renamed space.  The second program has g and h uncached from the start (for the properties
+# whose histories carry the flags themselves).  Used by the enumerations of the properties that ask for them
+# (cfg["enum_motifs"]); the random histories do not start from them (their draws do not move).
+_NAME = [["new_space", "-", "C", []], ["new_space", "C", "X", []],
+         ["new_cells", "C.X", "g", F(17, 1)], ["new_cells", "C", "h", F(17, 2)],
+         ["new_cells", "C", "f", F(4, 1, "g", "r", "X")],
+         ["new_space", "-", "B", []], ["set_ref", "B", "X", ["obj", "C.X"], "absolute"],
+         ["set_ref", "B", "Y", ["obj", "C"], "absolute"],
+         ["new_cells", "B", "k", F(4, 1, "g", "r", "X")], ["new_cells", "B", "f", F(4, 2, "h", "r", "Y")],
+         ["new_space", "-", "D", []], ["set_ref", "D", "t", ["obj", "B.k"], "absolute"],
+         ["new_cells", "D", "f", F(9, 1, "f", "t")]]
+MOTIFS_NAME = [
+    _NAME,
+    _NAME[:3] + [["set_cached", "C.X", "g", 0]] + _NAME[3:4] + [["set_cached", "C", "h", 0]] + _NAME[4:],
+]
+
+
+def rename_space_edits(live, to="Z"):
+    """`space.rename(<a free name>)` for every space that holds a cells or has a descendant that does (a static
+    space: a parametrised one or one that has bases / sub spaces is refused or not, as the library decides)"""
+    spaces = W.all_spaces(live.m)
+    holders = [p for p, s in spaces if len(s.cells)]
+    return [["rename_space", p, to] for p, _ in spaces if any(h == p or h.startswith(p + ".") for h in holders)]
+
+
 def base_motifs(cfg):
     return MOTIFS + MOTIFS_EXT if cfg and cfg.get("ext") else MOTIFS
 
@@ -1560,7 +1589,7 @@ def enumerate_edits(ctx, out, prop, hooks_factory, cfg, stats, quick_per_motif=1
     ext = bool(cfg.get("ext"))
     nbase = len(base_motifs(cfg))
     programs = []
-    for mi, m in enumerate(motifs_for(cfg)):
+    for mi, m in enumerate(motifs_for(cfg) + [list(x) for x in cfg.get("enum_motifs", ())]):
         if not m:
             continue
         programs.append((mi, m, False))
@@ -1581,6 +1610,9 @@ def enumerate_edits(ctx, out, prop, hooks_factory, cfg, stats, quick_per_motif=1
             ok, edits = observe(out, hist_json(prefix), "after a motif program", single_edits, live, ext)
             rng = ctx.rng("enum", prop, mi)
             extseqs, refed = [], []
+            # cfg["space_renames"]: every space that holds cells (or whose descendants do) renamed - on top of the
+            # sample of single edits (which it does not move)
+            renames = rename_space_edits(live) if ok and cfg.get("space_renames") else []
             if ok:
                 extseqs = ext_sequences(live, edits, ctx.rng("enum-ext", prop, mi), exhaustive=is_ext_motif,
                                         thorough=ctx.tier == "thorough") if ext and not variant else []
@@ -1619,7 +1651,8 @@ def enumerate_edits(ctx, out, prop, hooks_factory, cfg, stats, quick_per_motif=1
         if extra and not dag:
             # a property's own motifs: also every edit of the kinds it names (e.g. adding ONE base anywhere)
             chosen = chosen + [e for e in edits if e not in chosen and any(pred(e) for pred in cfg.get("extra_always", ()))]
-        seqs = [[e] for e in chosen]
+        seqs = [[e] for e in chosen] + [[e] for e in renames]
+        stats["enumerated_space_renames"] += len(renames)
         if variant:
             stats["uncached_variant_programs"] += 1
         light = (variant or dag or (extra and cfg.get("extra_light"))) and ctx.tier != "thorough"
